@@ -52,7 +52,9 @@ CodeVals == CASE CodePool = "atoms" -> AtomPool [] CodePool = "trees" -> TreePoo
               [] CodePool = "recs" -> {IInt(1), IList(<<IInt(4), IBool(TRUE), IFloat(FOne)>>),
                                       IList(<<IList(<<IInt(5), IInt(6)>>), IFloat(1073741824), IBool(FALSE), IInt(7)>>),
                                       IList(<<IList(<<IInt(1), IInt(2), IBool(TRUE), IInt(3), IBool(FALSE), IBool(TRUE), IFloat(FOne), IFloat(0), IFloat(1073741824)>>)>>),
-                                      IList(<<IList(<<IInt(5), IFloat(FOne), IBool(TRUE)>>), IInt(6), IFloat(1073741824), IBool(FALSE), IInt(7), IFloat(0), IBool(TRUE), IInt(8)>>)}
+                                      \* a one-element sublist of each type in front of three more values of that type
+                                      IList(<<IList(<<IInt(5)>>), IInt(6), IInt(7), IInt(8), IList(<<IBool(TRUE)>>), IBool(FALSE), IBool(FALSE), IBool(TRUE),
+                                              IList(<<IFloat(FOne)>>), IFloat(0), IFloat(1073741824), IFloat(1077936128)>>)}
 
 BVecVals == IF VecPool = "ids" THEN {<<TRUE>>} ELSE
             IF VecPool = "small" THEN {<<>>, <<TRUE>>, <<TRUE, FALSE, TRUE>>}
